@@ -117,6 +117,10 @@ inline char const* along_name(AlongStep a)
         case AlongStep::linear_fluct: return "linfluct";
         case AlongStep::field: return "field";
         case AlongStep::field_fluct: return "fieldfluct";
+        case AlongStep::linear_msc: return "linmsc";
+        case AlongStep::linear_msc_fluct: return "linmscfluct";
+        case AlongStep::field_msc: return "fieldmsc";
+        case AlongStep::field_msc_fluct: return "fieldmscfluct";
     }
     return "?";
 }
@@ -125,14 +129,17 @@ inline std::vector<ConfigCase> config_lattice(bool thorough)
 {
     std::vector<ConfigCase> v;
     std::vector<AlongStep> alongs = {AlongStep::linear, AlongStep::linear_fluct, AlongStep::field,
-                                     AlongStep::field_fluct, AlongStep::neutral};
+                                     AlongStep::field_fluct, AlongStep::neutral,
+                                     AlongStep::linear_msc, AlongStep::linear_msc_fluct,
+                                     AlongStep::field_msc, AlongStep::field_msc_fluct};
     std::vector<unsigned> slots = {1, 2, 8};
     std::vector<TrackOrder> orders = {TrackOrder::none, TrackOrder::init_charge,
                                       TrackOrder::reindex_status};
     std::vector<int> geos = {1, 3};
     if (!thorough)
     {
-        alongs = {AlongStep::linear, AlongStep::field_fluct};
+        alongs = {AlongStep::linear, AlongStep::field_fluct, AlongStep::linear_msc_fluct,
+                  AlongStep::field_msc};
         slots = {1, 3};
         orders = {TrackOrder::none, TrackOrder::init_charge};
         geos = {1};
@@ -398,8 +405,7 @@ inline Verdict check_steps(LoopProblem const& P, std::vector<StepRec> const& rec
             // documented tolerances (relative truncation error epsilon_rel_max = 1e-3 of the
             // step, boundary intercept accuracy delta_intersection = 1e-5 cm): the straight
             // displacement may exceed the reported path length by that much, never by more.
-            bool const in_field = (P.cfg.along == AlongStep::field
-                                   || P.cfg.along == AlongStep::field_fluct)
+            bool const in_field = has_field(P.cfg.along)
                                   && s.particle != int(P.gamma.unchecked_get());
             double const slack = in_field ? (1e-3 * s.step_length + 1e-5) : 1e-14 * scale;
             if (in_field && s.step_length < dx * (1 - 1e-12) - 1e-14 * scale)
